@@ -207,7 +207,7 @@ class UlpiSpec(Spec):
 
     def env0(self):
         r = self.req[0]
-        return (PHY0, None, 0, self.bud0, ((), (None,) * (RX_LAT + 1), (0,) * (RX_LAT + 1), 0), 0,
+        return (PHY0, None, 0, self.bud0, ((), (None,) * (RX_LAT + 1), (0,) * (RX_LAT + 1), 0, 0), 0,
                 (frozenset([PHY_RESET_REGS[0], r[0]]), frozenset([PHY_RESET_REGS[1], r[1]]), 0))
 
     def prologue(self, cur):
@@ -351,7 +351,7 @@ class UlpiSpec(Spec):
         if p[0] == "T" and pc == "idle" and txv: self.cover["tx-stall"] += 1
 
         # ---- receive side (C22)
-        queue, hcmd, hact, rw = rxm
+        queue, hcmd, hact, rw, uq = rxm
         ref = hcmd[0]
         for e in events:
             if e[0] == "rxcmd": ref = e[1]
@@ -360,8 +360,14 @@ class UlpiSpec(Spec):
         # tag receive findings that happen while a register write is outstanding (requested settings != PHY registers,
         # or the DIR phase aborted a register command): a different mechanism in the design than plain receive
         # (sticky for the whole DIR-high phase plus the latency window after it)
+        # `uq` > 0: a control input changed and the bus has not since been quiet (idle, registers == request) for QUIET
+        # cycles with the design's `busy` output low, i.e. the design may still be busy with a register write the PHY cannot see
+        # (`busy` is only used for this tag, never by an oracle)
+        if cc != env[2]: uq = QUIET
+        elif uq:
+            uq = uq - 1 if (p2[:2] == ("I", 0) and (p2[4], p2[5]) == self.req[c] and u is None and not txm2 and not o.busy) else QUIET
         if p2[0] == "R":
-            if rw or p2[2] or (p2[4], p2[5]) != self.req[c]: rw = RX_LAT + 1
+            if rw or uq or p2[2] or (p2[4], p2[5]) != self.req[c]: rw = RX_LAT + 1
         elif rw:
             rw -= 1
         sfx = ":register-write-outstanding" if rw else ""
@@ -389,7 +395,7 @@ class UlpiSpec(Spec):
             queue = queue[1:]
         queue = tuple((b, a + 1) for b, a in queue)
         if "rx" not in checks:
-            queue = (); hcmd = (None,) * (RX_LAT + 1); hact = (0,) * (RX_LAT + 1); rw = 0
+            queue = (); hcmd = (None,) * (RX_LAT + 1); hact = (0,) * (RX_LAT + 1); rw = uq = 0
         if o.rx_active: self.cover["rx-active"] += 1
 
         # ---- register bookkeeping (C24)
@@ -405,7 +411,7 @@ class UlpiSpec(Spec):
                 quiet = 0
             regm = (sf, so, quiet)
         self.outcomes.add((p2[0], o.data_o, o.stp, o.tx_ready, o.rx_valid, o.rx_active))
-        return (p2, u, c, (r_left, c_left, k_left), (queue, hcmd, hact, rw), txm2, regm)
+        return (p2, u, c, (r_left, c_left, k_left), (queue, hcmd, hact, rw, uq), txm2, regm)
 
     # ------------------------------------------------------------------ bounded convergence (lookahead, C24)
     def check_convergence(self, cur, env):
